@@ -372,3 +372,84 @@ void h_todo_arm(void)
   V_COVER(g_opendir && g_pulled);
 }
 #endif
+
+/* ================= injectbounce ================= */
+#ifdef P_INJECT
+char sbuf[16]; unsigned g_slen; int g_opened_qq, g_failed, g_from_set, g_to_set, g_closed_qq, g_close_ok, g_nchunks, g_readerr, g_getinfo, g_bounce_exists;
+char *g_from, *g_to; char g_from0;
+int qmail_open(struct qmail *q) { if (ND_BOOL()) return -1; g_opened_qq = 1; return 0; }
+unsigned long qmail_qp(struct qmail *q) { return 7; }
+void qmail_put(struct qmail *q, char *s, size_t n) {} void qmail_fail(struct qmail *q) { g_failed = 1; }
+void qmail_from(struct qmail *q, char *s) { g_from_set = 1; g_from = s; g_from0 = s[0]; }
+void qmail_to(struct qmail *q, char *s) { V_ASSERT(g_from_set && !g_to_set, "C14: a bounce has exactly one recipient"); g_to_set = 1; g_to = s; }
+char *qmail_close(struct qmail *q) { g_closed_qq = 1; g_close_ok = ND_BOOL() && !g_failed; return g_close_ok ? "" : "Zx"; }   /* never "" after qmail_fail (proofs qmail_close/qmail_put) */
+int newfield_datemake(datetime_sec t) { return 1; } int quote(stralloc *a, stralloc *b) { return 1; } int quote2(stralloc *a, char *s) { return 1; }
+size_t strlen(const char *s) { return ND_UINT() % 100; }
+int open_read(char *f) { return ND_BOOL() ? -1 : 12; } int close(int fd) { return 0; }
+ssize_t substdio_get(substdio *s, char *b, size_t n) { int r = ND_INT(); if (g_nchunks >= 2 || r == 0) return 0; if (r < 0) { g_readerr = 1; return -1; } ++g_nchunks; return 1 + ND_UINT() % 128; }
+void h_inject(void)
+{
+  int r, k, cut; char norm0, isdbl;
+  common_init(); g_opened_qq = g_failed = g_from_set = g_to_set = g_closed_qq = g_close_ok = g_nchunks = g_readerr = g_getinfo = 0;
+  for (k = 0; k < 16; ++k) sbuf[k] = ND_CHAR();
+  g_slen = 1 + ND_UINT() % 16; sbuf[g_slen - 1] = 0; for (k = 0; k + 1 < (int)g_slen; ++k) V_ASSUME(sbuf[k] != 0);
+  cut = g_slen >= 5 && sbuf[g_slen - 5] == '-' && sbuf[g_slen - 4] == '@' && sbuf[g_slen - 3] == '[' && sbuf[g_slen - 2] == ']';
+  doublebounceto.s = "postmaster@x"; doublebounceto.len = 13; bouncehost.s = "h"; bouncehost.len = 1;
+  r = injectbounce(g_id);
+  if (!g_getinfo) return;
+  { unsigned nlen = cut ? g_slen - 4 : g_slen;   /* normalised sender: a trailing -@[] (VERP marker) removed */
+    norm0 = sbuf[0]; if (cut && nlen == 1) norm0 = 0;
+    isdbl = nlen == 5 && sbuf[0] == '#' && sbuf[1] == '@' && sbuf[2] == '[' && sbuf[3] == ']';
+    if (cut) V_ASSERT(sbuf[nlen - 1] == 0, "C14: per-recipient (VERP) senders receive their bounces at the base address (trailing -@[] removed)");
+    if (k_file[F_BOUNCE] == 2) {
+      if (isdbl) V_ASSERT(!g_opened_qq, "C14: a failing double bounce is discarded: nothing is queued, so bounce loops are impossible");
+      else if (g_opened_qq && g_from_set) {
+        if (!norm0) V_ASSERT(g_from0 == '#' && g_from[1] == '@' && g_from[2] == '[' && g_from[3] == ']' && !g_from[4] && g_to == doublebounceto.s, "C14: a failing bounce yields one double bounce to the configured postmaster address with the special sender #@[]");
+        else V_ASSERT(g_from0 == 0 && g_to == sbuf, "C14: a bounce is sent with an empty envelope sender to the original envelope sender");
+      }
+    }
+  }
+  if (g_nunlink) {
+    V_ASSERT(g_nunlink == 1 && g_unlink_kind[0] == F_BOUNCE, "C14: injectbounce removes only the bounce record");
+    V_ASSERT((isdbl && !g_opened_qq) || (g_closed_qq && g_close_ok && g_to_set), "C03,C14: the bounce record is removed only after the notice was successfully queued (or for the documented discard of a double bounce)");
+  }
+  if (g_readerr) V_ASSERT(g_failed, "C14: a read error while copying the record or the message fails the submission");
+  V_ASSERT((r == 1) == ((g_nunlink == 1 && g_unlink_ok[0]) || (g_nunlink == 0 && k_file[F_BOUNCE] == 1)), "C03: injectbounce reports success exactly if the record is gone (queued and removed) or there was none");
+  V_COVER(isdbl && r == 1); V_COVER(!norm0 && g_to_set); V_COVER(cut && g_to_set && norm0);
+}
+#endif
+
+/* ================= addbounce (bounded content) ================= */
+#ifdef P_ADDBOUNCE
+#define BCAP 40
+#define NR 4
+#define NP 8
+static char bt[BCAP], rcp[NR + 1], rep[NP + 1]; unsigned g_written; int g_wfail, g_ofail, g_closed_b, g_opened_b;
+int stralloc_copys(stralloc *sa, char *s) { unsigned k = 0; V_ASSERT(sa == &bouncetext, "C14: supporting"); sa->s = bt; sa->a = BCAP; while (s[k] && k < BCAP) { bt[k] = s[k]; ++k; } sa->len = k; return 1; }
+int stralloc_cats(stralloc *sa, char *s) { unsigned k = 0; V_ASSERT(sa == &bouncetext, "C14: supporting"); while (s[k] && sa->len < BCAP) { bt[sa->len++] = s[k]; ++k; } return 1; }
+char *constmap(struct constmap *cm, char *s, int len) { return 0; }   /* no virtual-domain prefix in this run (stripvdomprepend: proof send_stripvdom) */
+int open_append(char *f) { V_ASSERT(f == fn2.s && g_fn2_kind == F_BOUNCE && g_fn2_id == g_id, "C14: the failure is appended to this message's bounce record"); if (g_ofail < 2 && ND_BOOL()) { ++g_ofail; return -1; } g_opened_b = 1; return 13; }
+unsigned int sleep(unsigned int s) { return 0; }
+ssize_t write(int fd, const void *p, size_t n)
+{
+  V_ASSERT(fd == 13 && (const char *)p == bouncetext.s + g_written && n == bouncetext.len - g_written && n >= 1, "C14: every byte of the entry is written exactly once, in order, despite short writes and failures");
+  if (g_wfail < 2 && ND_BOOL()) { ++g_wfail; return ND_BOOL() ? 0 : -1; }
+  { unsigned w = 1 + ND_UINT() % (unsigned)n; g_written += w; return (ssize_t)w; }
+}
+int close(int fd) { g_closed_b = 1; V_ASSERT(g_written == bouncetext.len, "C14: the record is closed only after the whole entry was written"); return 0; }
+void h_addbounce(void)
+{
+  unsigned k, n, rl = ND_UINT() % (NR + 1), pl = ND_UINT() % (NP + 1), hdr; int seenblank = 0;
+  common_init(); g_written = 0; g_wfail = g_ofail = g_closed_b = g_opened_b = 0; bouncetext.s = 0; bouncetext.len = 0;
+  for (k = 0; k < NR; ++k) { rcp[k] = ND_CHAR(); if (k < rl) V_ASSUME(rcp[k] != 0 && rcp[k] != '@'); } rcp[rl] = 0;
+  for (k = 0; k < NP; ++k) { rep[k] = ND_CHAR(); if (k < pl) V_ASSUME(rep[k] != 0); } rep[pl] = 0;
+  addbounce(g_id, rcp, rep);
+  n = bouncetext.len; hdr = 1 + rl + 3;
+  V_ASSERT(g_closed_b && n >= hdr + 1 && n < BCAP, "C14: supporting: entry written");
+  V_ASSERT(bt[0] == '<' && bt[1 + rl] == '>' && bt[2 + rl] == ':' && bt[3 + rl] == '\n', "C14: each entry starts with the failed recipient in angle brackets on a line of its own");
+  for (k = 1; k <= rl; ++k) V_ASSERT(bt[k] != '\n', "C14: the recipient part contains no line break");
+  V_ASSERT(bt[n - 1] == '\n' && bt[n - 2] == '\n', "C14: each entry ends with a blank line (one paragraph per recipient)");
+  for (k = 1; k < n; ++k) { if (seenblank) V_ASSERT(bt[k] == '\n', "C14: whatever bytes the failure text contains, nothing but line ends follows a blank line inside an entry: report text cannot forge a further recipient paragraph"); if (bt[k] == '\n' && bt[k - 1] == '\n') seenblank = 1; }
+  V_COVER(pl == NP && rl == NR); V_COVER(pl >= 2 && rep[0] == '\n' && rep[1] == '\n');
+}
+#endif
